@@ -6,7 +6,8 @@
    here: the decoder must accept exactly when the reference machine accepts, and then return the
    fields of Extract.  One NDJSON record per input:
      [id, pk, outer : "ok" | "trunc" | "badtype" | "badlen", input : elements, got : "accept"|"reject"|"error:<cls>",
-      out : projection of what the decoder returned (aligned with the packet schema; comps for a name)]
+      out : projection of what the decoder returned (aligned with the packet schema; comps for a name),
+      ptr : [dvb, scn, scr, dcr] the SignaturePtrs it returned (TlvModelPackets.Ptrs)]
    For a mismatch TLC prints <<"V", id, <<tag>>>> with tag = "<want>/<why>/<got>".           *)
 EXTENDS TlvModelPackets, Json, IOUtils
 
@@ -28,9 +29,15 @@ Expect(r) ==
        IF Verdict(r.pk, st) = "accept" THEN [v |-> "accept", why |-> "", out |-> Norm(r.pk, st.out)]
        ELSE [v |-> "reject", why |-> Why(r.pk, st), out |-> <<>>]
 
+\* derived pointers (SignaturePtrs) of an accepted Interest / Data: r.ptr = what the decoder returned
+ExpectPtrs(r) == IF r.pk \in {"interest", "data"}
+                 THEN Ptrs(r.pk, r.input, RunScan(SchemaOfPk(r.pk), IcOfPk(r.pk), r.input))
+                 ELSE Ptrs("none", <<>>, <<>>)
 Tags(r) == LET e == Expect(r) IN
-           IF e.v = r.got /\ (e.v = "accept" => e.out = r.out) THEN <<>>
-           ELSE <<e.v \o "/" \o (IF e.v = r.got THEN "fields-differ" ELSE e.why) \o "/" \o r.got>>
+           IF e.v # r.got THEN <<e.v \o "/" \o e.why \o "/" \o r.got>>
+           ELSE IF e.v = "accept" /\ e.out # r.out THEN <<e.v \o "/fields-differ/" \o r.got>>
+           ELSE IF e.v = "accept" /\ ~PtrsOk(ExpectPtrs(r), r.ptr) THEN <<e.v \o "/pointers-differ/" \o r.got>>
+           ELSE <<>>
 
 ASSUME \A i \in 1 .. Len(Recs) :
           LET t == Tags(Recs[i]) IN t = <<>> \/ PrintT(<<"V", Recs[i].id, t>>)
